@@ -20,7 +20,7 @@ CLAIMED = {
              "rational getter of the same quantity; bulk sync points re-derive the range types; the two range-type classifiers agree and use one "
              "notion of infinity (the INFTY parameter); the range-type arrays are never read where no rational LP exists; permutation removals "
              "remap the arrays consistently; the arrays are reset wherever a rational LP object is created; the rational LP is never assigned "
-             "from a persistently scaled real LP; no tolerance comparison decides what the rational LP stores. Not a proof of the behavioural "
+             "from a persistently scaled real LP; no tolerance comparison decides what the rational LP stores. The exact solver's LP transformations re-dimension the range-type arrays together with the LP. Not a proof of the behavioural "
              "statement: exactness of conversions and the LP classes' own arithmetic are not decided.",
         technique="CFG must-pass-through / reachability under finite sync-mode and scaling-state assumptions over the clang-resolved AST; decision-table comparison; type-directed tolerance-comparison lint",
         ref="DESIGN.md section 4, C07"),
@@ -53,7 +53,7 @@ CLAIMED['C15'] = dict(
          "value switches enumerate exactly the documented range; the range guards reject out-of-range values including NaN; no rejecting return of "
          "a setter is reachable after a state change; the value arrays are written only by their owners and every loop over a parameter array is "
          "bounded by that array's own COUNT; setters touch the LPs only in the sense/offset/sync arms; the two text front ends compare names "
-         "exactly against the right table and reach the same typed setter through the same conversion. Not a proof that a stored value is the value "
+         "exactly against the right table and reach the same typed setter through the same conversion. Bool parameters are parsed from exact literals. Not a proof that a stored value is the value "
          "later used, nor of printed precision.",
     technique="table extraction + constant evaluation, three-valued guard evaluation, CFG reachability (mutate-before-reject), who-may-write and sibling-parser comparison over the clang-resolved AST",
     ref="DESIGN.md section 4, C15")
@@ -64,7 +64,7 @@ CLAIMED['C20'] = dict(
          "are passed by cast; pointer parameters are subscripted only within a length the caller gave, vectors a C++ getter may have re-sized are "
          "not read beyond their own dimension, string buffers are sized from the string actually copied; arguments reach the C++ parameter of the "
          "same kind (lower/lhs, upper/rhs, objective, index) and every Rational is built from numerator and denominator of one pair at one index. "
-         "Not a proof of value equality through the C layer.",
+         "No storage-less sparse-vector local is assigned in a wrapper. Not a proof of value equality through the C layer.",
     technique="wrapper-table, bounded-subscript, argument-kind and num/denom-pairing rules over the clang-resolved AST of soplex_interface.cpp",
     ref="DESIGN.md section 4, C20")
 
@@ -97,7 +97,8 @@ CLAIMED['C17'] = dict(
          "occurs in library code (positive controls fire on every run); an if inside a copy operation whose branch copies a member from the source "
          "never tests the destination's own member; a raw back-pointer that a copy operation copies verbatim is re-bound to the copy's own object "
          "on the copy path (five instances fire on the unchanged tree and are reported as KNOWN-FINDING: a copy of a persistently scaled solver keeps "
-         "pointing at the source's scaler and scaling factors). Not a proof of bit-identical results.",
+         "pointing at the source's scaler and scaling factors). Component members that SoPlexBase's set*Param functions configure are copied by the component's operator= or re-applied after the copy; "
+         "a flag guarding a member vector is copied together with the vector. Not a proof of bit-identical results.",
     technique="observer read-set vs. copy write-set comparison, constructor-parity dataflow, alias/re-bind rules and forbidden-API scan over the clang-resolved AST and call graph",
     ref="DESIGN.md section 4, C17")
 
@@ -121,7 +122,7 @@ CLAIMED['C09'] = dict(
          "integer expressions; user-level accessors never go through the _scaler pointer; writeFile(unscale) writes an unscaled copy with the same "
          "arguments; the per-row/per-column arrays including the scale exponents move together in every permutation, removal and resize; "
          "single-index setters compare new and stored value in the same space; doAddRow(s) / doAddCol(s) read the other dimension's exponents only "
-         "after missing columns / rows have been created. Not a proof that scalers choose good exponents or that ldexp does not overflow.",
+         "after missing columns / rows have been created. A mirrored copy of scaled data is taken after the scaling, not before. Not a proof that scalers choose good exponents or that ldexp does not overflow.",
     technique="linear-form extraction over exponent arrays with a weight table (units-of-measure style), index-domain inference, parallel-array co-movement and guard-shape rules over the clang-resolved AST",
     ref="DESIGN.md section 4, C09")
 
@@ -133,7 +134,7 @@ CLAIMED['C13'] = dict(
          "built; throwing conversions in the settings front ends are inside try blocks; the test after a stream read takes its exit arm at end of "
          "file; a char pointer is not advanced beyond the terminator it was found on; every call of a reader helper that asserts an input predicate is "
          "unreachable when the predicate is false; an MPS field is used as a string only after a null test since the line was read; no assertion "
-         "states something about text or numbers read from the file; every character-scanning loop's condition is false at the terminator. Positive "
+         "states something about text or numbers read from the file; every character-scanning loop's condition is false at the terminator. A scalar filled by a stream read is initialised or the read is tested. Positive "
          "controls fire on every run. This pins known-dangerous idioms; it is not a proof of memory safety - a fuzzer is the natural tool for the rest.",
     technique="buffer-use classification, alloc/free and construct/destroy pairing on the CFG, reachability under predicate-false / field-null assumptions, three-valued evaluation of stream-state, terminator and scanning-loop tests, linear guard/consumption comparison over the clang-resolved AST",
     ref="DESIGN.md section 4, C13")
@@ -147,7 +148,7 @@ CLAIMED['C12'] = dict(
          "floating-point function or temporary lies between a token and its Rational (positive controls fire); no writer cuts a name (a %s conversion "
          "with a precision only for strings bounded by it); every formatted record fits the buffer it is printed into (maximal conversion widths, %f "
          "bounded only under a dominating magnitude test); the writers are total over row / bound kinds (no arm of a split on infinite sides throws); "
-         "the zero stripping of the number parser always leaves a digit. Not a proof that the re-read LP is equivalent; the dual writer is not covered.",
+         "the zero stripping of the number parser always leaves a digit. A local LP built by a writer gets tolerances before use. Not a proof that the re-read LP is equivalent; the dual writer is not covered.",
     technique="writer-token vs reader-recogniser table composition, constant/precision rules, printf-format width analysis against buffer extents, case-split totality and a type-directed float-detour lint over the clang-resolved AST",
     ref="DESIGN.md section 4, C12")
 
@@ -171,7 +172,8 @@ CLAIMED['C03'] = dict(
          "reconstruction, exact factorization), and OPTIMAL is assigned only under primalFeasible && dualFeasible; violations and tolerances are "
          "Rational and no floating-point value enters a Rational where violations are computed; the rational objective value is objective times "
          "primal in the user's sense plus the objective offset wherever it is computed; with a persistently scaled real LP the exact solver undoes the "
-         "scaling before its first refinement / floating-point solve step. Not a proof that refinement converges or that the transformations and the "
+         "scaling before its first refinement / floating-point solve step. A solution accepted by the exact solver reaches the objective-value computation on every path; the Farkas certificate is normalised for the "
+         "optimisation sense. Not a proof that refinement converges or that the transformations and the "
          "reconstruction test are right inside.",
     technique="typestate-style bracket checking on the CFG under parameter assumptions, provenance rules for acceptance flags, type-directed conversion lint over the clang-resolved AST",
     ref="DESIGN.md section 4, C03")
@@ -182,7 +184,8 @@ CLAIMED['C08'] = dict(
          "all three at the re-inserted index on every non-throwing path (classes whose assignment sits in a data-dependent loop are listed as not "
          "decided); all 16 PostStep classes are concrete with own execute/clone and a uniform execute signature; unsimplify runs the whole history "
          "backwards with the vectors in order; every simplifier result is mapped, verdicts never become OPTIMAL, VANISHED is reconstructed from the "
-         "presolver; the reduced LP carries simplifier offset + user offset. The substance of the property - validity of each reduction and of each "
+         "presolver; the reduced LP carries simplifier offset + user offset. The Result of every reduction called by simplify() is examined; a bound derived from a row is installed only after the crossing test; sibling "
+         "post-steps agree that a BASIC row with zero residual gets its dual assigned. The substance of the property - validity of each reduction and of each "
          "undo formula - is NOT decided: the two seeded formula changes for C08 are not caught.",
     technique="dominance on the back-edge-free CFG, definite-assignment (must-pass) after an index-shift idiom, class-table and decision-table rules over the clang-resolved AST",
     ref="DESIGN.md section 4, C08")
@@ -193,7 +196,7 @@ CLAIMED['C04'] = dict(
          "invalid status/bound combinations for rows and columns alike and the basic count, and a descriptor is validated before it is installed; the "
          "stored-basis bookkeeping obligations of C06 (index domains, own-dimension resize, remapping over the old dimension) are re-evaluated; the "
          "three basis queries share one three-way split and one source per arm with the slack basis as default; the bound/side status updaters are "
-         "mirror images of each other. Not a proof that the basis matrix is nonsingular or that a re-used basis reproduces the result.",
+         "mirror images of each other. The lower/upper status maps of the bound updaters are one-to-one. Not a proof that the basis matrix is nonsingular or that a re-used basis reproduces the result.",
     technique="decision-table extraction and composition, validator-shape rules, index-domain rules and a mirror-sibling comparison under a lower<->upper renaming over the clang-resolved AST",
     ref="DESIGN.md section 4, C04")
 
@@ -203,14 +206,15 @@ CLAIMED['C01'] = dict(
          "unsimplify, an active simplifier always unsimplifies and all four vectors (and the basis) are then taken from it, persistent scaling is "
          "undone before returning, all four vectors and both rays are unscaled with the LP that was passed; the simplex loop assigns OPTIMAL only "
          "under priced && maxinfeas + shift() <= tolerance with no shift left (the documented escape is listed, not counted) and an OPTIMAL solution of "
-         "a transformed LP is verified; the objective of a vanished LP uses the user-space objective and offset. The numerical substance "
+         "a transformed LP is verified; the objective of a vanished LP uses the user-space objective and offset. where a function splits on the optimisation sense the two arms differ; pricers and ratio testers subscript the solver's "
+         "vectors only inside loops over the dimension those vectors have. The numerical substance "
          "(feasibility, dual signs, stationarity, completeness) is NOT decided.",
     technique="vector-kind (units-of-measure) agreement at resolved call sites, must-pass-through under scaling/simplifier assumptions, control-dependence rules on status assignments",
     ref="DESIGN.md section 4, C01")
 CLAIMED['C02'] = dict(
     text="Plumbing clauses only: primal rays and Farkas vectors travel through their own producers, unscalers and getters; the 'has ray' / 'has Farkas' "
          "flags are defined from the matching status and from 'the solver holds the user's LP', and under a flag the vector is fetched; simplifier "
-         "verdicts map to INFEASIBLE / UNBOUNDED / INForUNBD and never to OPTIMAL; with ENSURERAY a verdict of the simplifier or of a presolved LP is "
+         "verdicts map to INFEASIBLE / INForUNBD (an UNBOUNDED verdict of the presolver is never adopted unverified) and never to OPTIMAL; with ENSURERAY a verdict of the simplifier or of a presolved LP is "
          "re-established on the original LP; after an entering pivot apparent unboundedness under an active shift is reset; certificate builders "
          "clear the vector before filling it. That a verdict is true and a certificate valid is NOT decided.",
     technique="vector-kind agreement, flag-definition and flag-implies-fetch rules, decision-table rules on the verdict switches over the clang-resolved AST and CFG",
@@ -222,7 +226,8 @@ CLAIMED['C19'] = dict(
          "at every call site, or its discard is structurally justified; removal by permutation in LPRowSetBase / LPColSetBase moves the parallel arrays "
          "for all old indices (bound taken before the removal); no do-while loop is controlled by a countdown that can be zero at entry (positive "
          "control); remove(nums, n) is never implemented by removing one renumbering element at a time; in SVSetBase the amount inserted in place after "
-         "ensureMem(E) is bounded by E. The abstract-data-type behaviour itself (key stability, dense numbering, permutation results, hash-table "
+         "ensureMem(E) is bounded by E. loops with a pre-decrement in the condition, loops bounded by a value just set to zero and descending subscript loops that stop "
+         "before index 0 are reported; add/append primitives never clear what is there. The abstract-data-type behaviour itself (key stability, dense numbering, permutation results, hash-table "
          "deletion, vector arithmetic, sorting) quantifies over operation sequences and contents and is NOT decided.",
     technique="rule-of-three and returned-shift dataflow rules over class facts and resolved call sites; loop-bound provenance, countdown-loop shape, sequential-removal shape and reservation/consumption comparison over the clang-resolved AST",
     ref="DESIGN.md section 4, C19")
